@@ -450,11 +450,50 @@ def _roundtrip(spec: dict, tag: str, label: str, ctx: dict, feats: list[str], se
                 viols.append(core.viol(f"re-read model computes different values [{label}]", None, names=bad[:6],
                                        original={k: float(a1[k]) for k in bad[:6] if k in a1.index}, reread={k: float(a2[k]) for k in bad[:6] if k in a2.index}, state=st, **ctx))
                 break
+    except (ZeroDivisionError, FloatingPointError, OverflowError):
+        import traceback
+
+        tb_ = traceback.format_exc()[-600:]
+        if _ill_conditioned_at_start(spec):
+            # the original sits (up to rounding) on a singularity of its own functions: an algebraically equivalent expression
+            # may land exactly on it (k - (k + 1) is -0.9999999999999999 in floating point and -1 after simplification)
+            counters["original_within_rounding_of_a_singularity(skipped)"] = 1
+        else:
+            viols.append(core.viol(f"re-read model cannot be evaluated [{label}]", None, error=tb_, **ctx))
     except Exception:  # noqa: BLE001
         import traceback
 
         viols.append(core.viol(f"re-read model cannot be evaluated [{label}]", None, error=traceback.format_exc()[-600:], **ctx))
     return viols, counters, True
+
+
+def _ill_conditioned_at_start(spec: dict) -> bool:
+    """Do the original model's own values move by more than 1e-6 (relative) - or stop being computable - when every declared
+    number moves by a relative 1e-12?"""
+    import copy
+    import math as _m
+
+    try:
+        base = rm.build(spec)
+        a0, r0 = base.get_args(), base.get_right_hand_side()
+    except Exception:  # noqa: BLE001
+        return True
+    for sgn in (1.0, -1.0):
+        sp = copy.deepcopy(spec)
+        for c in sp["components"]:
+            if c["kind"] in ("parameter", "variable") and "value" in c:
+                c["value"] = c["value"] * (1.0 + sgn * 1e-12)
+        try:
+            m_ = rm.build(sp)
+            a1, r1 = m_.get_args(), m_.get_right_hand_side()
+        except Exception:  # noqa: BLE001
+            return True
+        for x0, x1 in ((a0, a1), (r0, r1)):
+            for k in x0.index:
+                u, v = float(x0[k]), float(x1[k])
+                if not (_m.isfinite(u) and _m.isfinite(v)) or abs(u - v) > 1e-6 * max(1.0, abs(u)):
+                    return True
+    return False
 
 
 SPELLINGS = {"x.1": ["x1"], "a-b": ["a_b"], "my var": ["my_var"], "_u": ["CPD__u", "PAR__u", "RXN__u", "AR__u"], "9lives": ["CPD_9lives", "PAR_9lives", "RXN_9lives", "AR_9lives"], "lambda": ["lambda_"],
